@@ -499,10 +499,17 @@ def r2(ctx, R):
         R.bad(iv, iv.node, "is_valid_name no longer refuses non-identifiers, keywords and underscore names", stmt="is_valid_name body")
     else:
         trues = [r_ for r_ in q.returns(iv) if isinstance(r_.value, ast.Constant) and r_.value.value is True]
+        good = {"isinstance(word, str)": "T", "word.isidentifier()": "T", "keyword.iskeyword(word)": "F",
+                "_system_defined_names.match(word)": "F"}
         for r_ in trues:
-            g = q.guards_of(iv, r_)
-            if ("word.isidentifier()", "T") not in g or ("keyword.iskeyword(word)", "F") not in g or ("check", "F") not in g:
-                R.bad(iv, r_, "is_valid_name returns True without all three tests")
+            for flip in good:
+                val = dict(good)
+                val[flip] = "T" if good[flip] == "F" else "F"
+                if q.reached_under(iv, r_, lambda e: val.get(norm(e))):
+                    R.bad(iv, r_, "is_valid_name returns True without all three tests")
+                    break
+        if not any(q.reached_under(iv, r_, lambda e: good.get(norm(e))) for r_ in trues):
+            R.bad(iv, iv.node, "is_valid_name never accepts a name", stmt="return True")
     us = ctx.func("UserSpaceImpl.set_attr")
     R.inst("UserSpaceImpl.set_attr validates the reference name first")
     rs = q.raises(us, "ValueError")
